@@ -11,7 +11,7 @@ schedule — resample if the rule fires **on the uncorrected weights** (slot 0 k
 `SMC.csmc` followed by the corrected draw does).  All three leave `g T · h` invariant
 (`csmc_corrected_invariant`, `csmc_corrected_invariant_final_resample`, `csmc_corrected_invariant_X`),
 for every positive `h` on the support of `g T`; and `kernelH` is the plain kernel of the specification
-whose last-level target is `g T · h` (`kernelH_eq_kernel_modified`, in `ASMC8`). -/
+whose last-level target is `g T · h` (`kernelH_eq_kernel_withH`, in `ASMC8`). -/
 
 open Finset BigOperators
 
